@@ -1304,6 +1304,7 @@ def enumconst(ctx, objdir):
     cfg = "MC_EnumConst_quick.cfg" if ctx.quick else "MC_EnumConst_thorough.cfg"
     r = ctx.tlc_must_pass("EnumConst", cfg, workers=8, timeout=1500)
     cases = [json.loads(x) if isinstance(x, str) else x for x in r.vcases]
+    cases.sort(key=enum_case_sig)          # TLC's BFS order depends on the workers; numbering and spelling rotation must not
     ok = [c for c in cases if c["ok"]]
     rej = [c for c in cases if not c["ok"]]
     whys = collections.Counter(c["why"] for c in rej)
